@@ -117,3 +117,63 @@ def iteration_mutations(prog: Program, funcs: List[FuncInfo], root: ClassInfo, c
                             yield f, loop, n, 'the loop body calls %s, which changes the container (%s)' % (n.func.attr, summ[n.func.attr][0])
                 if not hit:
                     yield f, loop, loop, ''
+
+
+# ----------------------------------------------------------------------------------------
+# must-attempt: a statement that has to be reached on every path, exceptional ones included
+PURE_LAST = ('debug', 'info', 'warning', 'error', 'exception', 'log', 'isinstance', 'len', 'has_buffer', '_encryption_enabled',
+             'format', 'format_map', 'str', 'int', 'bool', 'time', 'has_header', 'is_set', 'values', 'items', 'keys', 'get',
+             'text_', 'bytes_', 'lower', 'upper', 'strip', 'update', 'append', 'extend', 'getpid', 'cast')
+
+
+def raise_capable(node: ast.AST, extra_pure: Tuple[str, ...] = ()) -> bool:
+    """can this statement realistically raise?  (I/O, foreign or plugin calls, awaits, the `.connection` property
+    that raises TcpConnectionUninitializedException) -- logging and pure accessors are not counted"""
+    for n in walk_no_nested(node):
+        if isinstance(n, ast.Await):
+            return True
+        if isinstance(n, ast.Call):
+            fn = attr_chain(n.func)
+            last = fn.split('.')[-1] if fn else None
+            if last is None or (last not in PURE_LAST and last not in extra_pure):
+                return True
+        if isinstance(n, ast.Attribute) and n.attr == 'connection' and isinstance(n.ctx, ast.Load):
+            return True
+    return False
+
+
+def must_attempt(cfg: Any, is_target: Callable[[ast.AST], bool], relevant: Callable[[Any], bool],
+                 extra_pure: Tuple[str, ...] = (), allowed_raisers: Tuple[str, ...] = ()) -> Tuple[int, Optional[Tuple[str, List[str]]]]:
+    """Every feasible path (exception edges included) for which relevant(path) holds must execute
+    or at least attempt a statement satisfying is_target.  Exception edges are only followed out of
+    statements that are raise_capable and whose calls are not all in allowed_raisers.
+    -> (number of relevant paths, first counter-example or None)"""
+    from ..flow import feasible
+    n = 0
+    for p in cfg.paths(limit=100000):
+        ok_path = True
+        for nid, lab in p.steps:
+            if lab == 'exc':
+                node = cfg.nodes[nid]
+                a = node.ast if node.kind != 'for' else node.ast.iter
+                if node.kind == 'with':
+                    a = ast.Module(body=[ast.Expr(value=it.context_expr) for it in node.ast.items], type_ignores=[])
+                if not raise_capable(a, extra_pure):
+                    ok_path = False
+                    break
+                names = [(attr_chain(c.func) or '') for c in walk_no_nested(a) if isinstance(c, ast.Call)]
+                if names and all(nm in allowed_raisers for nm in names if nm.split('.')[-1] not in PURE_LAST):
+                    ok_path = False
+                    break
+        if not ok_path or not feasible(p) or not relevant(p):
+            continue
+        n += 1
+        hit = False
+        for idx, node, lab in p.executed():
+            if node.ast is not None and node.kind in ('stmt', 'test') and is_target(node.ast):
+                hit = True
+                break
+        if not hit:
+            raiser = [norm(cfg.nodes[nid].ast)[:60] for nid, lab in p.steps if lab == 'exc']
+            return n, ('exception in `%s`' % raiser[0] if raiser else 'normal path', p.describe(24))
+    return n, None
